@@ -96,6 +96,15 @@ def result_of(sc, snapshot=False):
         df_ = getattr(tr.sim, fn_)()
         if len(set(ids)) == len(ids) and list(df_.columns) and len(set(df_.columns)) == len(df_.columns):
             res[key_] = {s: [float(x) for x in df_[s].to_numpy()[:n]] for s in df_.columns}
+    # ... and the line currents under each limit's name, asked for in one fixed order (by name), whatever order the limits were entered in
+    names_ = sorted(c_["name"] for c_ in sc["network"]["constraints"] if not c_.get("unnamed"))
+    if names_ and tr.exc is None and len(set(names_)) == len(names_) and not sc.get("reconfig"):
+        from acnportal.acnsim import analysis as _an
+        try:
+            cc_ = _an.constraint_currents(tr.sim, return_magnitudes=True, constraint_ids=list(names_))
+            res["line_currents"] = {k_: [float(x) for x in cc_[k_][:n]] for k_ in cc_}
+        except KeyError:
+            pass            # (a limit that was withdrawn during set-up: nothing to compare)
     return tr, res
 
 
@@ -104,7 +113,7 @@ def differ(a, b, tol, shift=0):
         return "exception %s vs %s" % (a["exc"], b["exc"])
     if b["iteration"] != a["iteration"] + shift:
         return "iteration %d vs %d (shift %d)" % (a["iteration"], b["iteration"], shift)
-    for key in ("pilots", "rates", "pilots_table", "rates_table"):
+    for key in ("pilots", "rates", "pilots_table", "rates_table", "line_currents"):
         if key not in a or key not in b:
             continue
         if set(a[key]) != set(b[key]):
@@ -116,8 +125,9 @@ def differ(a, b, tol, shift=0):
             rb = rb[shift:]
             if len(rb) != len(row):
                 return "%s[%s] length %d vs %d" % (key, s, len(row), len(rb))
+            tol_k = max(tol, 1e-9) if key == "line_currents" else tol     # (a matrix product: the summation order may follow the array shapes)
             for t, (x, y) in enumerate(zip(row, rb)):
-                if abs(x - y) > tol * max(1.0, abs(x)):
+                if abs(x - y) > tol_k * max(1.0, abs(x)):
                     return "%s[%s][%d] = %r vs %r" % (key, s, t, x, y)
     if set(a["energy"]) != set(b["energy"]):
         return "session sets differ"
